@@ -1336,6 +1336,7 @@ pub fn run_c04(r: &Runner) {
 pub fn run_c05(r: &Runner) {
     families_phase(r, "hygiene", &msg_entry, check_c05);
     repeat_boundary_phase(r, "hygiene", &msg_entry, check_c05);
+    after_blank_run_phase(r, "hygiene", &msg_entry, check_c05);
     literal_sweep(r, "hygiene", check_c05);
     c05_sweeps(r);
     c05_lanes(r, if r.quick() { 70 } else { 140 });
@@ -1374,6 +1375,7 @@ pub fn run_c15(r: &Runner) {
         b.aux = vec![(rec.cfg ^ other) as u64];
         check_c15(r, ctx, l, &b)
     });
+    after_blank_run_phase(r, "c15-default-accepted", &|e: Entry, c: u8| rr_entry(e, c) && c == 0, |r, ctx, l, rec| check_c15(r, ctx, l, rec));
     repeat_boundary_phase(r, "c15-default-accepted", &rr_entry, |r, ctx, l, rec| {
         let mut a = rec.clone();
         a.entry = Entry::cfg_entry(rec.kind());
